@@ -44,7 +44,7 @@ func init() {
 		Run:          runC16,
 		Race:         true,
 		Required:     []string{"epochs.parallel", "epochs.multi_species_storing", "histories.checked", "histories.ok", "delays.injected", "gomaxprocs.1", "gomaxprocs.16"},
-		TimeoutSec:   func(tier string) int { return 2400 },
+		TimeoutSec:   func(tier string) int { return 7200 },
 		PostChildren: c16CollectRaces,
 	})
 }
